@@ -1469,6 +1469,13 @@ int unlink(const char *path) {
     std::string rp;
     if (!K->resolve(path, false, rp)) { G->logf("unlink(%s) = ENOENT", path); KERR(C_UNLINK, ENOENT); }
     if (K->fs[rp].type == FsNode::DIR) KERR(C_UNLINK, EISDIR);
+    if (K->fs[rp].type == FsNode::SOCK && lib_ctx()) {
+        // the library removes a socket file that a live listening socket of this process is bound to: two sockets derived the
+        // same name (e.g. from a process-wide id that is not unique)
+        auto ls = K->fs[rp].sock.lock();
+        if (ls && !ls->closed && ls->st == UnixSock::LISTEN)
+            G->violation("C15.path_collision", "library code unlinked %s while a live listening socket is bound to it: two sockets of the process derived the same file name", path);
+    }
     K->fs.erase(rp);
     G->kmut++;
     child_check("unlink", -1);
